@@ -421,8 +421,10 @@ def part_smooth_sinc(res, nap, tier, rng):
             use_fs = rng.choice([fs, None]) if len(ep) == 1 else fs
             lp = nap.apply_lowpass_filter(x, f1, fs=use_fs, mode="sinc", transition_bandwidth=tb)
             hp = nap.apply_highpass_filter(x, f1, fs=use_fs, mode="sinc", transition_bandwidth=tb)
-            bp = nap.apply_bandpass_filter(x, (f1, f2), fs=fs, mode="sinc", transition_bandwidth=tb)
-            bs = nap.apply_bandstop_filter(x, (f1, f2), fs=fs, mode="sinc", transition_bandwidth=tb)
+            # the band limits in every admissible form; ONE object is passed to both complementary calls, as a user would
+            band = rng.choice([lambda: (f1, f2), lambda: [f1, f2], lambda: np.array([f1, f2])])()
+            bp = nap.apply_bandpass_filter(x, band, fs=fs, mode="sinc", transition_bandwidth=tb)
+            bs = nap.apply_bandstop_filter(x, band, fs=fs, mode="sinc", transition_bandwidth=tb)
             for nm, r in (("lowpass", lp), ("highpass", hp), ("bandpass", bp), ("bandstop", bs)):
                 if not axis_ok(r, x, ts, ep):
                     res.violations.append({"key": dict(kk, part="time_axis", filter=nm), "what": "sinc filter changed timestamps / support / shape / columns", "input": inp})
